@@ -92,6 +92,7 @@ func h01(authLen int, nTrusted int) {
 func H01a_auth32()          { h01(32, 0) }
 func H01b_auth0()           { h01(0, 0) }
 func H01c_auth1_pool()      { h01(1, 1) }
+func H01d_auth33()          { h01(33, 0) }
 func T01d_auth31()          { h01(31, 0) }
-func T01e_auth33()          { h01(33, 1) }
+func T01e_auth200()         { h01(200, 1) }
 func T01f_auth64()          { h01(64, 2) }
